@@ -541,8 +541,10 @@ func (b *blob) cacheChunkData(chunk region, r io.Reader, fr fetcher, allData map
 	defer cw.Close()
 
 	w := io.Writer(cw)
-	if _, ok := fetched[chunk]; ok {
-		w = io.MultiWriter(w, allData[chunk])
+	// Only a requested chunk has a destination; the server may also send chunks nobody asked for
+	// (they are recorded in fetched once cached) and may send a chunk more than once.
+	if dst, ok := allData[chunk]; ok && dst != nil {
+		w = io.MultiWriter(w, dst)
 	}
 
 	if _, err := io.CopyN(w, r, chunk.size()); err != nil {
